@@ -394,8 +394,11 @@ where
         // check the eventually properties
         for (i, property) in properties.iter().enumerate() {
             if ebits.contains(i) {
-                // Races other threads, but that's fine.
-                discoveries.insert(property.name, fingerprint_path.clone());
+                // Keep the first counterexample: `ebits` is not maintained once a discovery
+                // exists, so a later path may not be a counterexample.
+                discoveries
+                    .entry(property.name)
+                    .or_insert_with(|| fingerprint_path.clone());
             }
         }
     }
